@@ -26,6 +26,12 @@ package ipnisync
 //@   ensures nonnilelems(s.urls)
 //@   ensures s.noPath != old(s.noPath) ==> s.noPath && s.plainHTTP
 //@   at call cb#1: assert resp.StatusCode == 200 && arg0 == resp.Body
+// the client moves on to the publisher's next address only when a request could not be made at all
+// (transport failure) - never because of an HTTP status, which may be temporary (C04):
+//@   ghost doErr := false
+//@   at call Do#1: after ghost doErr := result1 != nil
+//@   loop 1: iteration ghost u0 := len(s.urls)
+//@   loop 1: iteration ensures len(s.urls) == u0 || (len(s.urls) == u0 - 1 && doErr)
 //@   ensures-local count("call:cb") <= 1
 //@   ensures-local result == nil ==> count("call:cb") == 1
 
